@@ -85,7 +85,8 @@ def run(ctx):
             ctx.nontriv(("rank", tuple(l)))
     bad, err = ctx.coq_eval_cases("rank", IMPORTS, "check_rank", terms, chunk=2000)
     report(ctx, "rankdata_ordinal", bad, err, terms)
-    # the wrapper's own transform: order preservation + forced sample on top (direct oracle)
+    # the wrapper's own transform: order preservation + forced sample on top (direct oracle) and exact correspondence with rank_transform
+    rt_terms, rt_meta = [], []
     for _ in range(200 if ctx.is_quick else 2000):
         b, n = int(rng.integers(1, 4)), int(rng.integers(1, 7))
         # utilities of every sign and magnitude (expected-error reductions are negative, distances large, probabilities tiny)
@@ -102,6 +103,12 @@ def run(ctx):
         rk = ut[:, :, 0]
         ctx.count("order_preserving_s_query")
         for i in range(b):
+            keys_ = rank_keys([fkey(v) for v in orig[i]])
+            low_ = min([k for k in keys_ if k is not None] + [0]) - 1
+            rt_terms.append(f"({zlit(low_)}, {vlist(keys_)}, {natlit(sidx[i])}, "
+                            + listlit(["None" if v != v else f"(Some {natlit(int(v))})" for v in rk[i]]) + ")")
+            rt_meta.append({"row": [None if v != v else float(v) for v in orig[i]], "forced": sidx[i], "ranks": [None if v != v else float(v) for v in rk[i]]})
+        for i in range(b):
             row, r = orig[i], rk[i]
             ok = np.array_equal(np.isnan(row), np.isnan(r)) and r[sidx[i]] == np.nanmax(r)
             for a in range(n):
@@ -112,6 +119,12 @@ def run(ctx):
                 ctx.violation("SingleAnnotatorWrapper._get_order_preserving_s_query", "order_not_preserved", f"row {row.tolist()} -> ranks {r.tolist()}, forced {sidx[i]}",
                               {"row": [None if np.isnan(v) else v for v in row], "forced": sidx[i]},
                               what="rank transform does not preserve the wrapped strategy's order / forced sample not on top")
+    bad, err = ctx.coq_eval_cases("ranktransform", IMPORTS, "check_rank_transform", rt_terms, chunk=2000)
+    if err:
+        ctx.violation("SingleAnnotatorWrapper._get_order_preserving_s_query", "model_eval_failed", err, {}, found_input=False, what="Coq evaluation of check_rank_transform failed")
+    for i in bad[:5]:
+        ctx.violation("SingleAnnotatorWrapper._get_order_preserving_s_query", "model_mismatch", "ranks differ from Model/Wrappers.v rank_transform", rt_meta[i], found_input=False,
+                      what="correspondence Model/Wrappers.v (rank_transform) <-> SingleAnnotatorWrapper._get_order_preserving_s_query no longer holds")
     # ---- SubSamplingWrapper ----
     Rec = _rec_cls()
     sterms, smeta = [], []
